@@ -242,11 +242,43 @@ func TestC19Callable(t *testing.T) {
 			ins[nIn-1] = reflect.SliceOf(ins[nIn-1])
 		}
 		nOut := rapid.IntRange(0, 3).Draw(t, "nOut")
+		// one case in six uses one of the signatures people actually write (an implementation may well treat them
+		// specially): func(), func() error, func() (any, error), func(any) error, func(string) (string, error), …
+		var commonOuts []int
+		if rapid.IntRange(0, 5).Draw(t, "commonSignature") == 0 {
+			name := func(n string) int {
+				for i, ty := range c19Types {
+					if ty.name == n {
+						return i
+					}
+				}
+				panic("harness: no type " + n)
+			}
+			shapes := [][2][]int{
+				{{}, {}},
+				{{}, {name("error")}},
+				{{}, {name("any"), name("error")}},
+				{{name("any")}, {name("error")}},
+				{{name("string")}, {name("string"), name("error")}},
+				{{name("int")}, {name("any"), name("error")}},
+				{{name("any")}, {name("any")}},
+			}
+			sh := shapes[rapid.IntRange(0, len(shapes)-1).Draw(t, "shape")]
+			nIn, variadic = len(sh[0]), false
+			ins, inIdx = make([]reflect.Type, nIn), make([]int, nIn)
+			for i, ix := range sh[0] {
+				inIdx[i], ins[i] = ix, c19Types[ix].t
+			}
+			nOut, commonOuts = len(sh[1]), sh[1]
+		}
 		outs := make([]reflect.Type, nOut)
 		outVals := make([]reflect.Value, nOut)
 		outBoxed := make([]any, nOut)
 		for i := range outs {
 			ix := rapid.IntRange(0, c19ParamTypes-1).Draw(t, "out")
+			if commonOuts != nil {
+				ix = commonOuts[i]
+			}
 			outs[i] = c19Types[ix].t
 			v := c19Types[ix].gen(t, "outv")
 			rv := reflect.New(outs[i]).Elem()
